@@ -344,7 +344,7 @@ def small(case):
 
 def run(chk, replay=None):
     chk.stage_proofs(kernels=["Records"])
-    n = 150 if chk.tier == "quick" else 1200
+    n = 150 if chk.tier == "quick" else 3000
     r = chk.rnd
     if replay:
         rp = json.load(open(replay)); cases = [rp["case"]["case"]]
@@ -425,7 +425,7 @@ def compare(chk, case, o, mo, feats):
     if o["len_single"] != 1:
         chk.violation("len-differs", f"len(unbatched graph) = {o['len_single']}", c)
     # --- getitem and networkx
-    m_items = [(m_graph(x[1][0]), replay_calls(x[1][1])) for x in m_get]
+    m_items = [(m_graph((x[1][0], x[1][1])), replay_calls(x[1][2])) for x in m_get]   # ((vs, es), calls) prints as a flat triple
     m_nxs = [replay_calls(x) for x in m_nx]
     if not raised("get", "getitem") and o["get"] != [x[0] for x in m_items]:
         chk.violation("getitem-differs", "Graph.__getitem__ of a stack differs from the model (the original episode followed by padding)",
